@@ -38,8 +38,8 @@ def run(ck: Check, repo: Repo) -> None:
     sub.known = []
     c05.run(sub, repo)
     ck.rule("C20.10", "selection inside the training loops keeps the population size, gives every non-elite member a fresh index and carries the elite over first "
-                      "(obligations of C05.3, C05.4 and C05.5, shared with the C05 check)")
-    taken = [replace(o, rule="C20.10") for o in sub.obs if o.rule in ("C05.3", "C05.4", "C05.5")]
+                      "(obligations of C05.1, C05.3, C05.4 and C05.5, shared with the C05 check; C05.1: the elite is ranked by one scalar score per member, also when fitness entries are per-agent vectors)")
+    taken = [replace(o, rule="C20.10") for o in sub.obs if o.rule in ("C05.1", "C05.3", "C05.4", "C05.5")]
     if len(taken) < 8:
         raise AnalysisError(f"C20.10: only {len(taken)} obligations taken over from C05.3-5")
     for o in taken:
